@@ -8,6 +8,7 @@ import (
 	"context"
 	"encoding/json"
 	"fmt"
+	"os"
 	"strings"
 
 	"github.com/martian-lang/martian/martian/syntax"
@@ -75,12 +76,31 @@ func (w *VerifWorld) VerifC10SerializePerf(fqid string) (s string) {
 	if w.top.rt.Config == nil {
 		w.top.rt.Config = new(RuntimeOptions)
 	}
-	perf, _ := n.forks[0].serializePerf(context.Background())
+	perf, kill := n.forks[0].serializePerf(context.Background())
 	b, err := json.Marshal(perf)
 	if err != nil {
 		return "marshal error: " + err.Error()
 	}
-	return string(b)
+	kb, err := json.Marshal(kill)
+	if err != nil {
+		return "marshal error: " + err.Error()
+	}
+	return string(b) + " / " + string(kb)
+}
+
+// VerifC10WriteVdrKill writes a _vdrkill report naming the given paths and
+// errors into the first fork of node fqid.
+func (w *VerifWorld) VerifC10WriteVdrKill(fqid string, paths, errs []string) error {
+	n := w.top.allNodes[fqid]
+	if n == nil || len(n.forks) == 0 {
+		return fmt.Errorf("no fork of %s", fqid)
+	}
+	md := n.forks[0].metadata
+	if err := os.MkdirAll(md.path, 0o755); err != nil {
+		return err
+	}
+	return md.Write(VdrKill, &VDRKillReport{Paths: paths, Errors: errs,
+		Count: uint(len(paths)), Size: uint64(10 * len(paths))})
 }
 
 // VerifC10VerifyPipelineOutput calls Fork.verifyPipelineOutput (whose message
